@@ -1,3 +1,4 @@
+import AquaVerif.Proofs.CropCalendar
 import AquaVerif.Proofs.CropFull
 import AquaVerif.Proofs.Clock
 import AquaVerif.Proofs.ClockCalendar
@@ -238,5 +239,54 @@ theorem catalogue_fresh_yield_divides_by_zero_iff : ∀ c ∈ Aqua.Generated.cro
     (c.yldWC = 0 ↔ c.name ∈ ["PotatoLocalGDD", "localpaddy", "MaizeChampionGDD", "Cassava"]) :=
   catalogue_yldWC_zero_iff
 
+
+/-! ### thermal crop calendar at initialisation and at season start (`Model/CropCalendar.lean`) -/
+
+/-- `compute_crop_calendar` for a thermal-time crop succeeds exactly when the degree days accumulated
+from planting to the end of the record exceed the maturity threshold and maturity is reached within
+364 days — the two documented `assert`s — for a known GDD method and a non-empty record. -/
+theorem thermal_calendar_init_succeeds_iff (F : Fn α) {c : CalGDDIn α} {m : GddMethod}
+    (hm : GddMethod.ofNat? c.gddMethod = some m) (temps : List (α × α)) :
+    (∃ o, calendarInit F c temps = .ok o) ↔
+      ∃ last, (cumsum (gddSeriesInit m c.tbase c.tupp temps)).getLast? = some last ∧
+        c.maturity < last ∧
+        firstAbove (cumsum (gddSeriesInit m c.tbase c.tupp temps)) c.maturity + 1 < 365 :=
+  calendarInit_ok_iff F hm temps
+
+/-- … and it fails in no other way than: unknown GDD method, empty record, the two asserts. -/
+theorem thermal_calendar_init_errors {F : Fn α} {c : CalGDDIn α} {temps : List (α × α)} {e : String}
+    (h : calendarInit F c temps = .error e) :
+    (e = "E:unbound" ∧ ¬ (c.gddMethod = 1 ∨ c.gddMethod = 2 ∨ c.gddMethod = 3)) ∨
+    (e = "E:index" ∧ temps = []) ∨ e = "E:assert:maturity" ∨ e = "E:assert:year" :=
+  calendarInit_error h
+
+/-- the season-start recomputation fails only in those ways or by the harvest-index-coefficient
+search not terminating (`E:fuel`) -/
+theorem thermal_calendar_reset_errors {F : Fn α} {fuel : Nat} {c : CalResetIn α}
+    {temps : List (α × α)} {e : String} (h : calendarReset F fuel c temps = .error e) :
+    (e = "E:unbound" ∧ ¬ (c.gddMethod = 1 ∨ c.gddMethod = 2 ∨ c.gddMethod = 3)) ∨
+    (e = "E:index" ∧ temps = []) ∨ e = "E:assert:maturity" ∨ e = "E:assert:year" ∨
+    e = "E:fuel" := calendarReset_error h
+
+/-- **Finding (modelled faithfully).**  When the end of yield formation is never reached in the
+record, `argmax` of an all-false vector makes its day 1, the length of yield formation becomes ≤ 0
+and the search for the harvest-index growth coefficient (`calculate_HIGC`) never terminates: the
+model runs out of fuel for every fuel. -/
+theorem yield_formation_never_reached_hangs {F : Fn α} (hF : ExpOrdLaws F) {fuel : Nat}
+    {c : CalResetIn α} {temps : List (α × α)} {d : CalDays}
+    (hd : calendarResetDays c temps = .ok d) (hy : d.yldFormCD ≤ 0)
+    (h1 : 0 < c.hiIni) (h2 : c.hiIni ≤ 0.98 * c.hi0) :
+    calendarReset F fuel c temps = .error "E:fuel" :=
+  calendarReset_fuel_of_yldForm_nonpos hF hd hy h1 h2
+
+/-- … which cannot happen when yield formation spans at least one day's maximum degree days and ends
+before maturity (true of all thermal crops of the catalogue): its length in days is positive. -/
+theorem yield_formation_days_positive {F : Fn α} {c : CalGDDIn α} {temps : List (α × α)}
+    {o : CalGDDOut α} (h : calendarInit F c temps = .ok o) (hb : c.tbase ≤ c.tupp)
+    (h0 : 0 ≤ c.hiStart) (hy : c.tupp - c.tbase ≤ c.yldForm)
+    (hm : c.hiStart + c.yldForm ≤ c.maturity) : 0 < o.days.yldFormCD :=
+  calendarInit_yldFormCD_pos h hb h0 hy hm
+
 end field
+
 end Aqua.C16
